@@ -71,7 +71,8 @@ def replay():
                 c0, c1 = kernel(order, None, 1.0, 0.118 * lam), kernel(order, modsv, 4.0, 0.118 * lam)
                 d.append(np.max(np.abs(c1 - c0)) / np.max(np.abs(c0)))
             slope = np.log2(d[0] / d[1]) / 3
-            if slope < order[0] - 0.4: out.append(f"order {order} {modsv.value} xi^2=4: relative difference to the central kernel {d[0]:.2e} -> {d[1]:.2e} for a_s/8 -> a_s/64, i.e. ~ a_s^{slope:.2f}, not a_s^{order[0]}")
+            # differences at the level of the numerical accuracy of the coupling solver (Radau, rtol 1e-6) carry no information on the slope
+            if d[0] > 2e-6 and slope < order[0] - 0.4: out.append(f"order {order} {modsv.value} xi^2=4: relative difference to the central kernel {d[0]:.2e} -> {d[1]:.2e} for a_s/8 -> a_s/64, i.e. ~ a_s^{slope:.2f}, not a_s^{order[0]}")
     return bool(out), "; ".join(out[:4]) if out else "scale-varied kernels approach the central ones at least like a_s^n"
 '''
 
